@@ -288,11 +288,63 @@ _READONLY = _re.compile(r"::(len|is_empty|iter|as_slice|first|last|get|contains)
 _TERMINAL = _re.compile(r"^std::iter::Iterator::(try_for_each|for_each|fold|try_fold|all|any|find|find_map|position|count|last|max|min|sum)$|ParallelIterator::(try_for_each|for_each)$")
 
 
-def empty_loop_forcing(body, reach, dead_calls=None):
+def _vec_uses(body, local):
+    """how the container held in `local` (a Vec created here, or a `&[T]` / `&Vec<T>` parameter) is used:
+    (push blocks, [(next block, term)], terminal-consumer blocks, unknown use?, [(call block, arg index)] calls that receive it by
+    shared reference)"""
+    from facts import callee_decl as _cdecl
+    seen, consumers, ret = flow.forward_aliases(body, local, limit=80)
+    pushes, nexts, terms, unknown, shared = [], [], [], bool(ret), []
+    for (cb, ct, ai) in consumers:
+        c = _callee(ct)
+        if ai == 0 and _PUSH.search(c):
+            pushes.append(cb)
+        elif ai == 0 and _NEXT.search(c):
+            nexts.append((cb, ct))
+        elif ai == 0 and (_TERMINAL.search(c) or _TERMINAL.search(_cdecl(ct))):
+            terms.append(cb)
+        elif _READONLY.search(c):
+            pass
+        else:
+            # handed to another function by shared reference (`&Vec<T>` / `&[T]`): it can only be read there
+            op = ct["args"][ai]
+            ty = body.locals[op[1][0]] if op[0] in ("c", "m") and len(op[1]) == 1 else ""
+            if c.startswith("rustic_") and ty.startswith("&") and not ty.startswith("&mut") and ("Vec<" in ty or ty.startswith("&[")) and ct.get("dest") and not ("Vec<" in ct.get("dest_ty", "") and "&" in ct.get("dest_ty", "")):
+                shared.append((cb, ai))
+            else:
+                unknown = True
+    return pushes, nexts, terms, unknown, shared
+
+
+def _next_switch_forcing(body, nexts, forced):
+    for (nb, nt) in nexts:
+        res = nt["dest"][0]
+        sw = nt.get("to")
+        hops = 0
+        while sw is not None and hops < 4:
+            b = body.blocks[sw]
+            tt = b["t"]
+            if tt["k"] == "switch":
+                dl = tt["discr"][1][0] if tt["discr"][0] in ("c", "m") else None
+                isd = any(s[0] == "=" and s[1] == [dl] and s[2][0] == "discr" and s[2][1][0] == res for s in b["s"])
+                if isd:
+                    for v, x in tt["targets"]:
+                        if v == "0":
+                            forced[sw] = x
+                break
+            if tt["k"] == "goto":
+                sw = tt["to"]
+                hops += 1
+            else:
+                break
+
+
+def empty_loop_forcing(body, reach, dead_calls=None, dead_args=None):
     """loops over a Vec that is created empty in this body and only filled at blocks outside `reach` cannot run:
     returns {switch_block: forced_successor} for the `match iter.next()` of such loops; terminal iterator consumers
     (`v.iter().try_for_each(closure)`) over such a Vec never invoke their closure: their call blocks are added to
-    `dead_calls` (a set) when given"""
+    `dead_calls` (a set) when given; calls that receive such a Vec by shared reference are added to `dead_args` as
+    (call block, argument index) - the callee sees an empty slice"""
     forced = {}
     for bb, t in body.calls():
         if "callee" not in t or not _VEC_NEW.search(_callee(t)):
@@ -300,54 +352,34 @@ def empty_loop_forcing(body, reach, dead_calls=None):
         d = t["dest"]
         if len(d) != 1:
             continue
-        seen, consumers, ret = flow.forward_aliases(body, d[0], limit=80)
-        if ret:
-            continue
-        pushes, nexts, terms, unknown = [], [], [], False
-        from facts import callee_decl as _cdecl
-        for (cb, ct, ai) in consumers:
-            c = _callee(ct)
-            if ai == 0 and _PUSH.search(c):
-                pushes.append(cb)
-            elif ai == 0 and _NEXT.search(c):
-                nexts.append((cb, ct))
-            elif ai == 0 and (_TERMINAL.search(c) or _TERMINAL.search(_cdecl(ct))):
-                terms.append(cb)
-            elif _READONLY.search(c):
-                pass
-            else:
-                unknown = True
-        if unknown or not (nexts or terms):
+        pushes, nexts, terms, unknown, shared = _vec_uses(body, d[0])
+        if unknown or not (nexts or terms or shared):
             continue
         if any(p in reach for p in pushes):
             continue
         if dead_calls is not None:
             dead_calls.update(terms)
-        for (nb, nt) in nexts:
-            res = nt["dest"][0]
-            sw = nt.get("to")
-            hops = 0
-            while sw is not None and hops < 4:
-                b = body.blocks[sw]
-                tt = b["t"]
-                if tt["k"] == "switch":
-                    dl = tt["discr"][1][0] if tt["discr"][0] in ("c", "m") else None
-                    isd = any(s[0] == "=" and s[1] == [dl] and s[2][0] == "discr" and s[2][1][0] == res for s in b["s"])
-                    if isd:
-                        for v, x in tt["targets"]:
-                            if v == "0":
-                                forced[sw] = x
-                    break
-                if tt["k"] == "goto":
-                    sw = tt["to"]
-                    hops += 1
-                else:
-                    break
+        if dead_args is not None:
+            dead_args.update(shared)
+        _next_switch_forcing(body, nexts, forced)
     return forced
 
 
-def reachable_under_refined(body, forced, rounds=4, eval_expr=None):
-    """reachable_under + refinement by empty_loop_forcing to a fixed point"""
+def empty_param_forcing(body, param_local, dead_calls=None):
+    """the same for a `&[T]` / `&Vec<T>` PARAMETER that is known to be empty at a call site: loops over it do not run"""
+    forced = {}
+    pushes, nexts, terms, unknown, shared = _vec_uses(body, param_local)
+    if unknown or shared:
+        return None
+    if dead_calls is not None:
+        dead_calls.update(terms)
+    _next_switch_forcing(body, nexts, forced)
+    return forced
+
+
+def reachable_under_refined(body, forced, rounds=4, eval_expr=None, dead_args_out=None):
+    """reachable_under + refinement by empty_loop_forcing to a fixed point; `dead_args_out` (a set) receives the
+    (call block, argument index) pairs at which a provably empty Vec is handed on by shared reference"""
     extra = {}
 
     def f(b, bb):
@@ -359,7 +391,11 @@ def reachable_under_refined(body, forced, rounds=4, eval_expr=None):
     dead = set()
     for _ in range(rounds):
         d2 = set()
-        e2 = empty_loop_forcing(body, reach, d2)
+        da = set()
+        e2 = empty_loop_forcing(body, reach, d2, da)
+        if dead_args_out is not None:
+            dead_args_out.clear()
+            dead_args_out.update(da)
         if all(k in extra for k in e2) and d2 <= dead:
             break
         extra.update(e2)
